@@ -98,6 +98,55 @@ pub fn process(
 ) -> Result<Vec<u8>, Error> {
     let mut finalized_opcode = vec![];
 
+    // Check count of operands before any access by index
+    let allowed_args: &[usize] = match op {
+        Operation::Lpm | Operation::Elpm => &[0, 2],
+        Operation::Br(BranchT::Bs) | Operation::Br(BranchT::Bc) => &[2],
+        Operation::Br(_) | Operation::Rjmp | Operation::Rcall | Operation::Jmp | Operation::Call => {
+            &[1]
+        }
+        Operation::Com
+        | Operation::Neg
+        | Operation::Inc
+        | Operation::Dec
+        | Operation::Push
+        | Operation::Pop
+        | Operation::Lsr
+        | Operation::Ror
+        | Operation::Asr
+        | Operation::Swap
+        | Operation::Tst
+        | Operation::Clr
+        | Operation::Lsl
+        | Operation::Rol
+        | Operation::Ser
+        | Operation::Bset
+        | Operation::Bclr => &[1],
+        Operation::Ijmp
+        | Operation::Eijmp
+        | Operation::Icall
+        | Operation::Eicall
+        | Operation::Ret
+        | Operation::Reti
+        | Operation::Spm
+        | Operation::Se(_)
+        | Operation::Cl(_)
+        | Operation::Break
+        | Operation::Nop
+        | Operation::Sleep
+        | Operation::Wdr => &[0],
+        Operation::Custom(_) => &[],
+        _ => &[2],
+    };
+    if !allowed_args.is_empty() && !allowed_args.contains(&op_args.len()) {
+        bail!(
+            "{:?} expects {:?} operand(s), but {} given",
+            op,
+            allowed_args,
+            op_args.len()
+        );
+    }
+
     let mut opcode = op.info(constants).op_code;
     let mut opcode_2part = 0u16;
     let mut long_opcode = false;
